@@ -34,6 +34,7 @@ Ctx = namedtuple("Ctx", "ints l s g frozen own in_loop fn funs rec depth")
 WHILE_BOUND = 3
 MAX_BLOCK = 3
 MAX_TOP = 3
+GROUPS = ((), ("f",), ("h",), ("f", "h"))      # which functions a program defines
 TRACKED = frozenset(["f", "h", "Red", "Cust"])
 
 
@@ -461,13 +462,12 @@ class Gen:
                 used = var_names(body, set()) & TRACKED
                 yield ("Fun", name, False, None, [], [(p, None) for p in params], None, body), cost + ct, used
 
-    def programs(self, budget, depth, exact=None, shard=None):
+    def programs(self, budget, depth, exact=None, groups=GROUPS):
         """Every program of weighted size <= budget: (items, cost), in a fixed order.
-        exact=k keeps the programs of size exactly k; shard=(j, m) keeps every m-th of those, starting at j
-        (the skipped ones cost almost nothing), so that m processes can split one level."""
-        counter = 0
+        exact=k keeps the programs of size exactly k; groups selects which sets of defined functions are
+        generated (the four groups are disjoint and share no tables, so processes can split a level by group)."""
         enum_item = ("Enum", "Col", False, None, [], [("Red", None), ("Cust", ("T", "Int", []))])
-        for which in ((), ("f",), ("h",), ("f", "h")):
+        for which in groups:
             defs_list = [([], 0, frozenset())]
             for name in which:
                 callable_from = tuple(n for n in which if n == "f" and name == "h")
@@ -492,9 +492,6 @@ class Gen:
                     if "f" in which and not ("f" in names or ("h" in names and ("h", "f") in used_defs)):
                         continue
                     if "h" in which and "h" not in names:
-                        continue
-                    counter += 1
-                    if shard is not None and counter % shard[1] != shard[0]:
                         continue
                     body = [("Expr", s) for s in stmts] + [("Expr", e) for e in epilogue(c_after)]
                     items = defs + body
